@@ -12,6 +12,7 @@ import (
 	"os"
 	"path/filepath"
 	"runtime"
+	"runtime/coverage"
 	"runtime/debug"
 	"runtime/pprof"
 	"sort"
@@ -535,6 +536,12 @@ var stopProfile = func() {}
 
 func (r *Run) report() int {
 	stopProfile()
+	if d := os.Getenv("VERIF_COVERDIR"); d != "" { // coverage audit builds (mc/tools/cover.sh)
+		if err := coverage.WriteMetaDir(d); err != nil {
+			fmt.Println("coverage:", err)
+		}
+		coverage.WriteCountersDir(d)
+	}
 	// confirm violations by re-execution (determinism), keep the smallest per key
 	sort.Slice(r.violations, func(i, j int) bool {
 		a, b := r.violations[i], r.violations[j]
